@@ -152,6 +152,20 @@ Theorem C20_opening_balance_chain : forall lang exs asset txs e,
      (exists f, cell_at (sw_writes (asset_sheet lang exs e')) (r' + 9) 8 = PFormula f)).
 Proof. exact opening_balance_chain. Qed.
 
+(** the row arithmetic of the source fits the shipped templates (blank rows where rows are inserted, the template's own
+    labels on the totals lines and on the balance rows) *)
+Theorem C20_layout_fits_template :
+  (forallb (fun rc => negb ((gen_jp_first_row - 1 <=? fst rc) && (fst rc <=? gen_jp_first_row + 1))) gen_jp_tmpl_asset_cells = true /\
+   has_label gen_jp_tmpl_asset_cells (gen_jp_first_row + 2) 0 = true /\
+   has_label gen_jp_tmpl_asset_cells (gen_jp_first_row + 8) 0 = true /\ has_label gen_jp_tmpl_asset_cells (gen_jp_first_row + 9) 0 = true /\
+   has_label gen_jp_tmpl_asset_cells (gen_jp_first_row + 7) 4 = true /\ has_label gen_jp_tmpl_asset_cells (gen_jp_first_row + 7) 8 = true /\
+   has_label gen_jp_tmpl_asset_cells (gen_jp_first_row + 16) 8 = true) /\
+  (forallb (fun rc => negb ((gen_jp_summary_start - 1 <=? fst rc) && (fst rc <=? gen_jp_summary_start + 1))) gen_jp_tmpl_summary_cells = true /\
+   has_label gen_jp_tmpl_summary_cells (gen_jp_summary_start + 2) 0 = true /\
+   has_label gen_jp_tmpl_summary_cells (gen_jp_summary_start - 2) 0 = true) /\
+  gen_jp_transaction_row_start = gen_jp_first_row + 1.
+Proof. exact (conj jp_asset_layout_fits_template (conj jp_summary_layout_fits_template jp_row_start_consistent)). Qed.
+
 (** ---- the code as it was (finding F5): first-seen year order and a reference hard-wired to year - 1 *)
 Theorem C20_refuted_unordered : exists i r,
   jp_report 0 false false i = Ok r /\
@@ -194,5 +208,6 @@ Print Assumptions C20_sheets_within_capacity.
 Print Assumptions C20_one_summary_per_year.
 Print Assumptions C20_summary_line.
 Print Assumptions C20_opening_balance_chain.
+Print Assumptions C20_layout_fits_template.
 Print Assumptions C20_refuted_unordered.
 Print Assumptions C20_refuted_gap.
